@@ -37,8 +37,13 @@ def sb_expr(rng, d):
         return (rng.choice(('add', 'mul', 'sub', 'div')), sub(), sub())
     if r < 0.38:
         return (rng.choice(('add', 'mul')), sub(), sub(), sub())
-    if r < 0.5:
+    if r < 0.44:
         return ('pow', sub(), rng.choice((I(2), I(-1), I(3), FR(R(1, 2)), FR(R(-3, 2)), sub())))
+    if r < 0.5:
+        # exponent (or base) that is itself a product / quotient / sum of function calls: bracketing decisions of the printer
+        f = lambda: (rng.choice(('sqrt', 'exp', 'sin', 'log', 'abs', 'cos')), rng.choice((X, Y, Z, S('k1'))))
+        comp = rng.choice((('mul', f(), f()), ('div', f(), f()), ('add', f(), f()), ('mul', f(), f(), f()), ('sub', f(), I(1)), ('neg', f())))
+        return ('pow', sub(), comp) if rng.random() < 0.7 else ('pow', comp, sub())
     if r < 0.55:
         return ('neg', sub())
     if r < 0.8:
